@@ -416,6 +416,12 @@ func restoreUnitsOf(p *Program, tier string, helpers bool) ([]*Unit, []UnitError
 
 func init() {
 	register(&Property{
+		ID:       "C17dev",
+		Title:    "development: decorateNode units",
+		Packages: []string{pkgDecorator},
+		Build:    buildDecorateNode,
+	})
+	register(&Property{
 		ID:       "C12",
 		Title:    "Restored ASTs carry a coherent position space",
 		Packages: []string{pkgDecorator},
